@@ -13,7 +13,10 @@ TEXTS = {
     "v6": ["::", "::1", "1::", "2001:db8::1", "fe80::1", "ff02::1", "1:2:3:4:5:6:7:8", "::ffff:0:0", "2001:DB8::A", "0:0:0:0:0:0:0:1", "0:0:0:0:0:0:0:0", "::2", "::1:0", "1::1",
            "2001:0db8:0000:0000:0000:0000:0000:0001", "ffff:ffff:ffff:ffff:ffff:ffff:ffff:ffff", "fe80::", "0:0:0:0:0:0:0:2", "100::", "::ffff:ffff"],
     "v6mapped": ["::ffff:1.2.3.4", "::1.2.3.4", "64:ff9b::192.0.2.33", "::ffff:127.0.0.1", "::ffff:0.0.0.0", "::127.0.0.1", "::0.0.0.1", "1:2:3:4:5:6:1.2.3.4"],
-    "v6scoped": ["fe80::1%lo", "fe80::1%1", "ff02::1%lo", "fe80::2%0", "fe80::1%4294967295", "::1%lo", "fe80::abcd%1"],
+    "v6scoped": ["fe80::1%lo", "fe80::1%1", "ff02::1%lo", "fe80::2%0", "fe80::1%4294967295", "::1%lo", "fe80::abcd%1",
+                 # long forms: an uncompressed address with a scope suffix is longer than any text inet_ntop produces (45 characters)
+                 "fe80:0000:0000:0000:0202:b3ff:fe1e:8329%lo", "fe80:0000:0000:0000:0202:b3ff:fe1e:8329%12345", "fe80:0000:0000:0000:0202:b3ff:fe1e:8329%123456",
+                 "0000:0000:0000:0000:0000:ffff:192.168.100.200%7", "2001:0db8:0000:0000:0000:0000:0000:0001%4294967295", "fe80:0000:0000:0000:0000:0000:0000:0001%000000001"],
     "v6bad": [":::", "1::2::3", "12345::", "1:2:3:4:5:6:7:8:9", "::g", "fe80::1%nosuchif0", "[::1]", "::1 ", "1:2:3:4:5:6:7", "::ffff:256.1.1.1", ":", "1:", ":1", "::1%", "1.2.3.4:80",
               " ::1", "::1/128", "fe80::1%lo%lo", "2001:db8:::1"],
     "garbage": ["localhost", "example.com", "hello", "-1", "a" * 300, "%", "0", "::" + "0" * 70, "1." * 200, "\x01\x02", "12345678901234567890"],
